@@ -239,3 +239,37 @@ pub fn run_extra(entry: &Entry, inputs: &[Vec<V>], mbl: u8, thorough: bool, seed
     }
     st
 }
+
+/// Panics raised outside the repository's own files (arithmetic overflow in `core`, a failed
+/// `unwrap` inside a dependency) would give the driver a signature that contains the toolchain
+/// path. Such admissible inputs are reported here with a toolchain-independent signature and
+/// removed from the list the driver sees.
+pub fn preflight(entry: &Entry, inputs: &[Vec<V>], mbl: u8, rep: &mut Report) -> Vec<Vec<V>> {
+    let rel = OpRel(entry.clone());
+    let k = match catch_any(|| MidnightCircuit::new(&rel, Value::unknown(), Value::unknown(), Some(mbl)).min_k()) {
+        Ok(k) => k,
+        Err(_) => return inputs.to_vec(), // the driver reports it
+    };
+    let mut keep = vec![];
+    for x in inputs {
+        let Some(pi) = entry.reference(x) else {
+            keep.push(x.clone());
+            continue;
+        };
+        let circuit = MidnightCircuit::new(&rel, Value::known(pi.clone()), Value::known(x.clone()), Some(mbl));
+        match catch_any(|| collect::<F, _>(k, &circuit, &[vec![], pi.clone()], CollectOpts::default())) {
+            Err(p) if !p.file.contains("/circuits/src/") && !p.file.contains("/zk_stdlib/src/") && !p.file.contains("/proofs/src/") && !p.file.contains("/curves/src/") => {
+                rep.eval();
+                let base = p.file.rsplit('/').next().unwrap_or("?").to_string();
+                let slug: String = p.message.chars().take(48).map(|c| if c.is_ascii_alphanumeric() { c.to_ascii_lowercase() } else { '-' }).collect();
+                rep.violation(
+                    &format!("C04/{}/panic-on-admissible-input@rust-lib:{base} {slug}", entry.name()),
+                    &format!("synthesis panics on an admissible input (outside the repository's files, at {}): {}", p.location, p.message),
+                    json!({"op": entry.name(), "label": entry.kind.label(), "input": format!("{x:?}"), "k": k, "max_bit_len": mbl, "panic": format!("{p:?}")}),
+                );
+            }
+            _ => keep.push(x.clone()),
+        }
+    }
+    keep
+}
